@@ -56,6 +56,13 @@ def check(ctx: Ctx, ev: Evidence) -> list[Finding]:
                 for cls, origin, f, reason in CALLER_FAULTS:
                     if x.cls == cls and x.origin == origin and (not f or fn == f):
                         allowed, why = True, reason
+            if not allowed and x.cls == "ValueError" and x.origin == "explicit":
+                # configuration error detected while starting the transaction: raised right after the sequence-number
+                # provider was consulted, before any PDU or indication (documented: provider width must be 8/16/32 bit)
+                pos = [i for i, y in enumerate(e.ev) if y.kind == "env" and y.name == "seq_num_provider.get_and_increment"]
+                after = [y for y in e.ev[pos[-1] + 1:] if y.kind in ("pdu",) or (y.kind == "env" and y.name.startswith("user."))] if pos else [None]
+                if pos and not after and "bit width" in x.detail:
+                    allowed, why = True, CALLER_FAULTS[0][3]
             key = f"{which} handler | {x.cls} ({x.origin}) | {fn} | {x.detail[:90]}"
             if allowed:
                 if key not in seen_r1:
